@@ -84,6 +84,18 @@ CHECKS = {
              'the flex <STRING> rules. Not covered: named-constant tables, radix rendering of integers, %d %x %o %b, other dump_* functions.',
         technique='bounded unwinding (CBMC) of C lowered from the real C++ per run against a scanner-model postcondition',
     ),
+    'C11': dict(
+        category='proof',
+        text='Slice: the cached type profile of the value stack, which selects the overload of every word. stack::push/pop/drop '
+             '(and need/get) lowered per run from /repo/libzwerg/stack.hh with std::vector<std::unique_ptr<value>> replaced by a '
+             'small trusted model. Contracts: each operation preserves "byte d of the profile = type code of the slot at depth d '
+             'for the top four slots, 0 where the stack is shallower", for any stack depth (only the top eight slots are read); '
+             'pop/drop on a too shallow stack raise and change nothing; push/pop/drop change the depth by +1/-1/-n.',
+        design_ref='DESIGN.md section 4 C11',
+        note='SLICE ONLY: the word implementations (strings, sequences, integers), overload lookup and operand collection are not '
+             'covered. Trusted: cxx2c lowering; the vector/unique_ptr model (ownership not modelled); type codes 1..127.',
+        technique='CBMC code contracts on C lowered from the real C++ per run',
+    ),
 }
 
 NOT_APPLICABLE = {
